@@ -481,14 +481,16 @@ func c05Class(verdict string) string {
 		m += " " + k[1]
 	}
 	if v := c05ViaRe.FindStringSubmatch(verdict); v != nil {
-		// keep only the LAST path component kind (mapindex / gen / field …)
-		parts := strings.Split(v[2], "/")
-		m += " @" + parts[len(parts)-1]
-		if strings.Contains(v[2], "mapindex") {
-			m += " mapindex"
-		}
-		if strings.Contains(v[2], "/gen") {
-			m += " gen"
+		// position category: where the Visitor walks / map index type / hint payload
+		switch {
+		case strings.Contains(v[2], "mapindex"):
+			m += " @mapindex"
+		case strings.Contains(v[2], "/gen"):
+			m += " @gen"
+		case v[2] == "entrypoint":
+			m += " @entrypoint"
+		default:
+			m += " @visited"
 		}
 	}
 	if strings.Contains(verdict, "from-exact=") && !strings.Contains(verdict, "case-variants=0") {
